@@ -16,7 +16,9 @@ from hypothesis import strategies as st
 from vq import core
 from vq.gen import graphs as gg
 
-NAMES = ["a", "b", "data", "child", "info", "_private", "count", "k_9", "Zeta"]
+NAMES = ["a", "b", "data", "child", "info", "_private", "count", "k_9", "Zeta",
+         # names that string-extend other names (img / img_ref situations): a skip must match whole names only
+         "data_raw", "child2", "a1", "info.x"]
 # names that exist on the classes but are not instance data (method / property / class attribute)
 CLASS_LEVEL = ["method", "prop", "class_level", "save", "print_tree"]
 ABSENT = ["nope", "missing_attr", "a_b"]
@@ -88,6 +90,8 @@ def skip_names(draw, spec, allow_class_level=True):
     # names that are ALSO dict keys somewhere (skipping must not reach into containers); absent attribute
     # names that are dict keys count too
     dkeys = sorted({k for k, _v in _dict_keys(spec) if k in NAMES})
+    prefixes = [n for n in present if any(m != n and m.startswith(n) for m in present)]
+    dkeys = dkeys + prefixes * 2
     pool = present + multi * 3 + dkeys * 4 + ABSENT + (CLASS_LEVEL if allow_class_level else [])
     return draw(st.lists(st.sampled_from(pool), min_size=1, max_size=4, unique=True))
 
@@ -208,6 +212,8 @@ def check(ctx, case):
         classes.append("skip_name_is_class_level_attribute")
     if any(n in ABSENT for n in all_skipped):
         classes.append("skip_name_absent")
+    if any(any(m != n and m.startswith(n) for m in names_by_depth) for n in all_skipped):
+        classes.append("skipped_name_is_prefix_of_another_attribute")
     if any(n in all_skipped for n, s in _dict_keys(root)):
         classes.append("skipped_name_is_also_a_dict_key")
     ctx.record(case, nontrivial, classes)
